@@ -97,3 +97,27 @@ Theorem C07_accepted_finalization_matches_the_client_run :
     (sl_km3 st = km3c /\ pre ++ mac = prec ++ macc /\ k = sl_session_key st) \/ Bad (hash CS).
 Proof. exact @accepted_finalization_same_transcript. Qed.
 Print Assumptions C07_accepted_finalization_matches_the_client_run.
+
+(* the same at the API level: ANY response r' that a client accepts and whose MAC field is the MAC of an honest
+   server session's response is that session's response, the session consumed this client's own request, context
+   agrees and the key the server will release is the client's key - or a collision is exhibited *)
+From OKE Require Import ClientAccept MatchingApi.
+Theorem C07_accepted_response_is_that_sessions :
+  forall E Sc Pk Sk (CS : Suite E Sc Pk Sk), HashLaws (hash CS) -> GroupLaws CS ->
+  forall tape (setup : ServerSetup Pk Sk Sk) file rq cred ctx_s ids_s slog resp rest dbg
+         clog pw r' ctx_c ids_c ksf fin sk ek spk dbgc,
+    server_login_start CS (private_key_ops (ke CS)) tape setup (Some file) rq cred ctx_s ids_s = Ok (slog, resp, rest, dbg) ->
+    client_login_finish CS clog pw r' ctx_c ids_c ksf = Ok (fin, sk, ek, spk, dbgc) ->
+    k2_mac (cr_ke2 r') = k2_mac (cr_ke2 resp) ->
+    length (client_request_bytes CS clog) = length (server_request_bytes CS rq) ->
+    length (client_l2 CS r') = length (client_l2 CS resp) ->
+    length (k2_nonce (cr_ke2 r')) = length (k2_nonce (cr_ke2 resp)) ->
+    (client_request_bytes CS clog = server_request_bytes CS rq /\
+     client_l2 CS r' = client_l2 CS resp /\
+     k2_nonce (cr_ke2 r') = k2_nonce (cr_ke2 resp) /\
+     k_ser_pk (ke CS) (k2_server_e_pk (cr_ke2 r')) = k_ser_pk (ke CS) (k2_server_e_pk (cr_ke2 resp)) /\
+     match ctx_c with Some c => c | None => nil end = match ctx_s with Some c => c | None => nil end /\
+     sk = sl_session_key slog)
+    \/ Bad (hash CS).
+Proof. exact @accepted_response_is_that_sessions. Qed.
+Print Assumptions C07_accepted_response_is_that_sessions.
